@@ -11,10 +11,13 @@ open Garnish.Lemmas.Runtime Garnish.Lemmas.EqualityRefine
 
 variable {F : Type}
 
+theorem node_shape' {cells : Array Cell} {a : Nat} (h : isNode cells a = true) : ∃ sh, shape cells a = some sh := by
+  simpa [isNode, Option.isSome_iff_exists] using h
+
 /-- a readable frame cell has its return point right before it -/
 theorem frame_point {cells : Array Cell} {i : Nat} (hf : isFrameCell cells i = true) (hn : isNode cells i = true) :
     ∃ k pt, i = k + 1 ∧ cells[k]? = some (Cell.jumpPoint pt) := by
-  obtain ⟨sh, hsh⟩ := node_shape hn
+  obtain ⟨sh, hsh⟩ := node_shape' hn
   unfold isFrameCell at hf
   cases hc : cells[i]? with
   | none => simp [hc] at hf
@@ -34,7 +37,7 @@ theorem frame_point {cells : Array Cell} {i : Nat} (hf : isFrameCell cells i = t
         | some d =>
           rw [hk] at hjp
           cases d <;> simp at hjp
-          exact ⟨k, _, rfl, rfl⟩)
+          exact ⟨k, _, rfl, hk⟩)
 
 /-- **`pop_frame`** -/
 theorem popFrame_law (nc : NumCode F) {st : BState} (hinv : BInv st) :
@@ -83,7 +86,7 @@ theorem popFrame_law (nc : NumCode F) {st : BState} (hinv : BInv st) :
     have hret : retOf st.store.cells (k + 1) = pt := by simp only [retOf, hk]
     have hjb : Store.jumpBefore st.store (k + 1) = .ok pt := by
       simp [Store.jumpBefore, Store.get, hk, bind, Outcome.bind, pure]
-    obtain ⟨sh, hsh⟩ := node_shape hnode
+    obtain ⟨sh, hsh⟩ := node_shape' hnode
     have hkid : ∀ x ∈ sh.kids, isNode st.store.cells x = true := fun x hx => hinv.wfq.kid_node hsh hx
     unfold isFrameCell at hfc
     cases hc : st.store.cells[k + 1]? with
